@@ -57,6 +57,7 @@ def run(P: Program, R: Report, tier: str) -> None:
     R.decides += [
         "no edit path changes segment adjacency without the relabel it needs, with ids of sound provenance that are not stale",
     ]
+    R.decides += ['history shape and registration (shared R02.x); memo discipline; the tracklet key is threaded from the feature dictionary into the annotator']
     R.not_decided += [
         "the iff over all node pairs; the frame clause; correctness of the bulk assignment and of the downstream walk in the annotator",
     ]
